@@ -235,6 +235,13 @@ func WithTrackedRLE(tr *Tracker) connect.HandlerOption {
 		func() connect.Compressor { return &rleCompressor{} })
 }
 
+// WithAcceptTrackedRLE is WithTrackedRLE for clients.
+func WithAcceptTrackedRLE(tr *Tracker) connect.ClientOption {
+	return connect.WithAcceptCompression("rle",
+		func() connect.Decompressor { return &trackedDecompressor{inner: &rleDecompressor{}, tr: tr} },
+		func() connect.Compressor { return &rleCompressor{} })
+}
+
 func WithAcceptTrackedTag(name string, tr *Tracker) connect.ClientOption {
 	tag := TagByte(name)
 	return connect.WithAcceptCompression(name,
